@@ -282,7 +282,7 @@ func (r *Rediaron) BatchCreateAndDecr(ctx context.Context, data map[string]strin
 		_, err = tx.TxPipelined(ctx, func(pipe redis.Pipeliner) error {
 			pipe.Decr(ctx, decrKey)
 			for key, value := range data {
-				pipe.SetNX(ctx, key, value, 0)
+				pipe.Set(ctx, key, value, 0)
 			}
 			return nil
 		})
